@@ -11,6 +11,12 @@ def bmc(quick, thorough, reach=(), **kw):
 
 RED = {"reservedvar": 0, "taskerr": 0, "taskcancel": 0}
 
+def bmcPurge(reach=("undef", "redef", "save.purged-a-job", "end")):
+    # the focal pipeline disappears from the definitions and comes back; SaveToStore in between (purge of jobs of undefined pipelines)
+    q = {"K": 5, "N": 2, "undef": 1, "saves": 1, "reservedvar": 0, "taskerr": 0, "taskcancel": 0, "cancel": 0}
+    th = {"K": 6, "N": 3, "undef": 1, "saves": 1, "reservedvar": 0, "taskerr": 0, "taskcancel": 0}
+    return bmc(q, th, reach=reach)
+
 def bmcB(reach=()):
     # longer histories over the reduced alphabet (schedule, cancel, return, cancel goroutine, timer)
     q = dict(RED, K=5, N=4)
@@ -24,6 +30,7 @@ L3_ASSUME = [
     "uuid.NewV4 returns fresh distinct ids; instants lie in (0, 2^62) ns; start_delay < 2^61 ns",
     "apex/log calls are no-ops",
     "one focal pipeline with tasks a->b and an independent task c; histories of at most K events over at most N jobs",
+    "purge run (C01, C05, C15): the alphabet is schedule / scheduler return / timer plus UNDEF (a reload whose definitions lack the focal pipeline), REDEF (it is defined again, unchanged) and SAVE (the real SaveToStore with recording stores, no retention configured); a job that a save removed is no longer expected to be reported, but it must not execute, hold a queue slot or be forgotten while it executes; C03/C06/C16 monitors are off once the pipeline was undefined (those properties speak of pipelines that remain defined)",
     "step run (C05, C15): one ScheduleAsync from an arbitrary state of up to N jobs (running / waiting with or without pending timer / finished / canceled) that satisfies the representation invariants asserted by the BMC; covers states no short history reaches (e.g. 3 waiting + 2 running)",
 ]
 
@@ -72,7 +79,7 @@ C05STEP = step("VerifC05Step", {"N": 4}, {"N": 5}, reach=["sched.start", "sched.
 
 CHECKS = {
     "C01": {"prefixes": ["C01."], "assumptions": L3_ASSUME, "validate_samples": {"quick": 1, "thorough": 3},
-            "runs": [bmc({"K": 4, "N": 4}, {"K": 5, "N": 4}, reach=["spawn.concurrent>1", "end"]), bmcB(reach=["end"])]},
+            "runs": [bmc({"K": 4, "N": 4}, {"K": 5, "N": 4}, reach=["spawn.concurrent>1", "end"]), bmcB(reach=["end"]), bmcPurge()]},
     "C02": {"prefixes": ["C02."], "assumptions": L3_ASSUME + L2_ASSUME, "validate_samples": {"quick": 1, "thorough": 3},
             "runs": [bmc({"K": 4, "N": 4}, {"K": 5, "N": 4}, reach=["end"]), L2RUN, L2RUN3, L2CB,
                      step("VerifC02Graph", {"tasks": 3}, {"tasks": 3}, reach=["cyclic", "acyclic", "fan-in"]),
@@ -89,7 +96,7 @@ CHECKS = {
     "C04": {"prefixes": ["C04."], "assumptions": L3_ASSUME + L2_ASSUME, "validate_samples": {"quick": 1, "thorough": 3},
             "runs": [bmc({"K": 4, "N": 4}, {"K": 5, "N": 4}, reach=["cancel.waiting", "cancel.running", "cancel.already-canceled", "cancel.completed"]), bmcB(reach=["cancel.already-canceled", "cancel.completed"]), L2RUN, L2RUN3, COMPOSITE]},
     "C05": {"prefixes": ["C05."], "assumptions": L3_ASSUME, "validate_samples": {"quick": 1, "thorough": 3},
-            "runs": [bmc({"K": 4, "N": 4}, {"K": 5, "N": 4}, reach=["sched.start", "sched.append", "sched.replace", "sched.reject-full", "sched.reject-noqueue"]), bmcB(reach=["sched.replace"]), C05STEP]},
+            "runs": [bmc({"K": 4, "N": 4}, {"K": 5, "N": 4}, reach=["sched.start", "sched.append", "sched.replace", "sched.reject-full", "sched.reject-noqueue"]), bmcB(reach=["sched.replace"]), C05STEP, bmcPurge()]},
     "C06": {"prefixes": ["C06."], "assumptions": L3_ASSUME, "validate_samples": {"quick": 1, "thorough": 3},
             "runs": [bmc({"K": 4, "N": 4}, {"K": 5, "N": 4}, reach=["spawn.third-or-later-job"]), bmcB(reach=["spawn.third-or-later-job", "state.three-waiting"]),
                      # a canceled job that winds down (a task already reported the cancel) next to a waiting job
@@ -97,7 +104,7 @@ CHECKS = {
     "C07": {"prefixes": ["C07."], "assumptions": L3_ASSUME, "validate_samples": {"quick": 1, "thorough": 3},
             "runs": [bmc({"K": 4, "N": 4}, {"K": 5, "N": 4}, reach=["sched.delayed", "spawn.delayed-job", "sched.replace"]), bmcB(reach=["spawn.delayed-job", "sched.replace"])]},
     "C15": {"prefixes": ["C15."], "assumptions": L3_ASSUME, "validate_samples": {"quick": 1, "thorough": 3},
-            "runs": [bmc({"K": 4, "N": 4}, {"K": 5, "N": 4}, reach=["end"]),
+            "runs": [bmc({"K": 4, "N": 4}, {"K": 5, "N": 4}, reach=["end"]), bmcPurge(),
                      step("VerifC02Graph", {"tasks": 2}, {"tasks": 3}, reach=["cyclic", "acyclic"]),
                      step("VerifC02Graph", {"tasks": 5, "dagonly": 1, "concretenames": 1}, {"tasks": 5, "dagonly": 1, "concretenames": 1}, reach=["acyclic"]), SELFTEST, C05STEP,
                      # HTTP API level: the real handlers of GET /pipelines/, /pipelines/jobs, /job/detail against a runner started from an arbitrary snapshot
